@@ -846,6 +846,15 @@ V('M-wrap-none', ['C05', 'C11'], 'A12.none', ST,
 V('M-peek-none', ['C11'], 'A12.none', ST, "        if result:\n            self._cache.seek(-len(result), os.SEEK_CUR)", "        self._cache.seek(-len(result), os.SEEK_CUR)")
 
 
+V('M-seg-octets-spec', ['C17', 'C02', 'C03'], 'W.segspec', BE,
+  "        else:\n            baseTag = asn1Spec.tagSet.baseTag\n\n            # strip off explicit tags\n            if baseTag:\n                tagSet = tag.TagSet(baseTag, baseTag)\n\n            else:\n                tagSet = tag.TagSet()\n\n            asn1Spec = asn1Spec.clone(tagSet=tagSet)",
+  "        elif not isOctetsType(value):\n            baseTag = asn1Spec.tagSet.baseTag\n\n            # strip off explicit tags\n            if baseTag:\n                tagSet = tag.TagSet(baseTag, baseTag)\n\n            else:\n                tagSet = tag.TagSet()\n\n            asn1Spec = asn1Spec.clone(tagSet=tagSet)")
+V('M-seg-bits-spec', ['C17', 'C03'], 'W.segspec', BE, "            substrate += encodeFun(alignedValue[start:stop], None, **options)", "            substrate += encodeFun(alignedValue[start:stop], asn1Spec, **options)")
+V('M-choice-eoo-probe', ['C01', 'C02', 'C09'], 'A8.probe', BD,
+  "                    substrate, asn1Object.componentType.tagMapUnique,\n                    tagSet, length, state, **options)",
+  "                    substrate, asn1Object.componentType.tagMapUnique,\n                    tagSet, length, state, **dict(options, allowEoo=True))")
+
+
 if __name__ == '__main__':
     from sa import props
     pids = sys.argv[1:] or sorted(props.PROPS)
